@@ -332,6 +332,8 @@ CaseRec ==
       exp |-> IF fault # "none" THEN [raise |-> TRUE, fault |-> fault]
               ELSE [ raise |-> FALSE, comp |-> CompSeq(total), q |-> ChargeOf, hasq |-> HasCharge,
                      prefix |-> PrefixOf, suffix |-> SuffixOf, render |-> Render,
+                     phase_default |-> PhaseIdx(SuffixOf, <<"(s)", "(l)", "(g)">>),
+                     phase_alt |-> PhaseIdx(SuffixOf, <<"(aq)", "(g)">>),
                      massnum |-> MassNumOf(total, ChargeOf), massden |-> MassDenOf(total),
                      ntoks |-> Len(toks) ] ]
 Emit == Done => PrintT(<<"CASE", ToJson(CaseRec)>>)
